@@ -725,13 +725,17 @@ fn main() {
         // interleaved transfers may share one base name (different directory parts / identical names)
         let shared_class: Option<&'static str> = if cfg.auto && k > 1 && rng.chance(1, 3) { Some(*rng.pick(&["shared_sub", "shared_same", "shared_mix"])) } else { None };
         if shared_class.is_some() { bump!("rnd_shared_base_name"); }
+        // name order: as it comes / reverse of the order of occurrence / all names equal
+        let name_order = if shared_class.is_none() && k > 1 { rng.below(4) } else { 0 };
+        if name_order == 1 { bump!("rnd_names_reverse_order"); }
+        if name_order == 2 { bump!("rnd_names_all_equal"); }
         for ti in 0..k {
             let n = rng.range(1, max_pk) as usize;
             let bs = match rng.below(4) { 0 => 1, 1 => rng.range(1, 4), _ => rng.range(1, max_bs) } as usize;
             let last = if rng.chance(1, 3) { bs } else { rng.range(1, bs as u64) as usize };
             let mut lens = vec![bs; n];
             lens[n - 1] = last;
-            let class = shared_class.unwrap_or(*rng.pick(&NAME_CLASSES));
+            let class = shared_class.unwrap_or(match name_order { 1 => "rev", 2 => "dupname", _ => *rng.pick(&NAME_CLASSES) });
             let pre = cfg.auto && rng.chance(1, 3);
             let mut tr = make_tr(&mut rng, lens, bs, class, pre, keys_for(variant, ti));
             tr.base_id = if shared_class.is_some() { 1 } else { ti + 1 };
